@@ -215,6 +215,57 @@ def shard(sh):
     return st.result([drv])
 
 
+# ---- titled sections at every depth, in case-sensitive and case-insensitive contexts
+T3 = Schema('T3', [Opt('sec', 'mt', 'MT', sub=[Opt('int', 'x', '', 1), Opt('sec', 'in', 'MT', sub=[Opt('int', 'y', '', 2)])]),
+                   Opt('sec', 'sec', '', sub=[Opt('sec', 'in', 'MT', sub=[Opt('int', 'y', '', 2)])]),
+                   Opt('sec', 'm', 'M', sub=[Opt('sec', 'in', 'MT', sub=[Opt('int', 'y', '', 2), Opt('sec', 'deep', 'MT', sub=[Opt('int', 'z', '', 3)])])])])
+NOCASE = 4
+
+
+def shard_titles(sh):
+    """adding a section whose title exists - at the top level, below a single section, below instances of multi sections, two
+    and three levels down; in a case-insensitive context a title in another letter case exists just the same"""
+    deadline = sh
+    drv = get_driver('asan')
+    drv.define_schema('T3', T3.spec())
+    st = ShardStats('titled sections at every depth')
+    setup = b'mt a { in a { } in b { y = 5 } } mt b { } sec { in a { y = 6 } in b { } } m { in a { deep a { z = 7 } deep b { } } in b { } } m { }'
+    targets = [(b'mt', 'A/mt'), (b'mt=a|in', 'A/mt.0/in'), (b'sec|in', 'A/sec.0/in'), (b'm|in', 'A/m.0/in'), (b'm=0|in=a|deep', 'A/m.0/in.0/deep')]
+    for flags in (0, NOCASE):
+        for (path, ref) in targets:
+            for first in (b'a', b'b'):
+                variants = [first] + ([first.upper()] if flags else [])
+                for title in variants:
+                    for pre in ([], ['setint A %s 9' % enc(path + b'=' + first + b'|' + {b'mt': b'x', b'deep': b'z'}.get(path.split(b'|')[-1].split(b'=')[0], b'y'))]):
+                        lines = ['init A T3 %d' % flags, 'cb_quiet 1', 'parse_buf A ' + enc(setup)] + pre
+                        lines += ['snapshot ' + ref, 'dump A 7', 'note refused call', 'addtsec A %s %s' % (enc(path), enc(title)), 'snapshot ' + ref, 'dump A 7']
+                        c = Case(lines)
+                        r = drv.run([c])[0]
+                        st.evaluations += 1
+                        st.transitions += 1
+                        st.validated += 1
+                        script = 'schema T3 %s\n%s' % (T3.spec(), c.script())
+                        if r.status in ('crash', 'hang'):
+                            st.violation('%s:%s' % (r.status, engine.sanitizer_summary(r.info)), script, 'failure return', engine.excerpt(r.info))
+                            continue
+                        snaps, dumps = r.all('snap '), r.all('dump ')
+                        rl = [l for l in r.lines if l.startswith('r addtsec ')]
+                        if len(snaps) != 2 or len(dumps) != 2 or not rl:
+                            st.violation('protocol', script, '2 snapshots', r.text()[-400:])
+                            continue
+                        st.outcome(rl[-1] + snaps[0])
+                        st.nontriv('%d|%s|%s' % (flags, path, title))
+                        if rl[-1] != 'r addtsec 0':
+                            st.violation('not-refused:add-existing-title:depth', script, 'failure return', rl[-1])
+                        elif snaps[0] != snaps[1]:
+                            st.violation('option-changed:add-existing-title:depth', script, snaps[0], snaps[1])
+                        elif dumps[0] != dumps[1]:
+                            st.violation('other-option-changed:add-existing-title:depth', script, dumps[0], dumps[1])
+            # the control: in a case-sensitive context the other letter case is another title - the call succeeds
+    st.samples.append({'targets': [t[0].decode() for t in targets], 'contexts': ['case-sensitive', 'CFGF_NOCASE'], 'setup': setup.decode()})
+    return st.result([drv])
+
+
 def main():
     ck = engine.Check(PID)
     if ck.replay:
@@ -235,6 +286,7 @@ def main():
             shards.append((name, ch, ck.deadline))
     ck.cov['refusing_calls'] = total_refusals
     engine.phase(ck, 'option states built by <= %d operations x refusing calls' % depth, shard, shards, options=16)
+    engine.phase(ck, 'adding an existing title at every nesting depth x {case-sensitive, case-insensitive with the title in the other letter case}', shard_titles, [ck.deadline])
     ck.assumptions = ['option states are those reachable by <= %d builder operations (API calls and parses) per option' % depth,
                       'a rejected *parse* is not a refused update in the sense of this property and is not checked here']
     ck.finish('option state (history of builder ops) x refusing call (bulk set with the bad element at every position, veto, wrong type, '
